@@ -48,7 +48,7 @@ from . import C09 as S
 PROP = "C11"
 # obligations of the properties this one is downstream of are obligations of this check too (vk.runner.collect_obligations)
 UPSTREAM = ["C05"]
-GEN_REGIONS = ["Attrs", "CoreKernels", "NumpyKernels"]
+GEN_REGIONS = ["Attrs", "CoreKernels", "NumpyKernels", "ResultPurity"]
 THEOREMS = {
     # the NumPy fallbacks reduce the per-segment products to the same mean and population scatter, for every chunk size
     "SpecKitV.Props.NumpyKernelsGen": ["gen_np_win_only_auto_eq_ref", "gen_np_win_only_csd_eq_ref", "gen_np_detrend0_auto_eq_ref", "gen_np_detrend0_csd_eq_ref", "gen_np_poly_auto_eq_ref", "gen_np_poly_csd_eq_ref", "np_poly_csd_chunk_invariant", "np_poly_csd_M2_nonneg"],
@@ -58,6 +58,9 @@ THEOREMS = {
     # statistical meaning of the generated XY_emp_var = M2/navg under the standard model (K pairwise uncorrelated / independent products)
     "SpecKitV.Props.StatModel": ["emp_var_expectation", "mean_z_variance", "emp_var_vs_true", "emp_var_K1_zero", "emp_var_vs_true_of_indep",
                                  "StatModel.vector_hypotheses_satisfiable"],
+    # no method of a result writes in place an array its cache holds (region ResultPurity: buffer effects of every SpectrumResult method, regenerated
+    # each run) — the quantities of this property are read off that cache, in any order, possibly after plot() / get_measurement() / to_dataframe()
+    "SpecKitV.Props.ResultPurityGen": ["gen_result_methods_write_no_cached_array", "gen_result_methods_pure", "gen_session_pure", "cRun_clean_of_clean"],
 }
 CONTRACTS = ["the M2 handed to SpectrumResult is the reducer's output for the per-segment products of the kernels (C01: every kernel = Ref, reducer = "
              "mean / population variance about the mean); NumPy fallbacks are tied to the same reference by C01's correspondence"]
